@@ -1,18 +1,22 @@
 #!/bin/bash
-# usage: harness/seedstore.sh <seed-id> <prop> [tier] — confirm a sub-agent's seeded change in its worktree /tmp/wt/<id>,
-# run ./check <prop> against it (applied to /repo, then reverted), store it under /verif/seeded/<id>/, remove the worktree.
+# usage: harness/seedstore.sh <seed-id> <prop> [tier] [extra props...] — confirm a sub-agent's seeded change from its
+# patch.diff on a CLEAN checkout of the worktree /tmp/wt/<id> (no git stash: the stash is shared between worktrees),
+# run ./check <prop> against it (patch applied to /repo, then reverted), store it under /verif/seeded/<id>/.
 id="$1"; prop="$2"; tier="${3:-quick}"; wt=/tmp/wt/$id
 cd $wt || exit 2
+cp -r _seed /tmp/_seed_$id
+git checkout -q -- . ; git clean -qfd -e _seed
+/venv/bin/python _seed/demo.py >/dev/null 2>&1; without=$?
+git apply _seed/patch.diff || { echo "patch does not apply to a clean worktree"; exit 2; }
 suite=$(/venv/bin/python -m pytest -q -p no:cacheprovider 2>&1 | tail -1)
 /venv/bin/python _seed/demo.py >/dev/null 2>&1; with=$?
-git stash -q; /venv/bin/python _seed/demo.py >/dev/null 2>&1; without=$?; git stash pop -q
 echo "suite: $suite | demo with change rc=$with, without rc=$without"
 cd /repo; [ -n "$(git status --porcelain)" ] && { echo "repo not clean"; exit 2; }
 git apply $wt/_seed/patch.diff || { echo "patch does not apply to /repo HEAD"; exit 2; }
 cd /verif; out=$(./check "$prop" "$tier" 2>&1); rc=$?
 git -C /repo checkout -- . ; git -C /repo status --porcelain
 echo "$out" | grep -E "VIOLATION|->" | head -4 | cut -c1-300
-echo "check rc=$rc"
+echo "check $prop rc=$rc"
 mkdir -p /verif/seeded/$id; cp $wt/_seed/patch.diff $wt/_seed/demo.py /verif/seeded/$id/
 SUITE="$suite" WITH=$with WITHOUT=$without RC=$rc PROP=$prop TIER=$tier ID=$id OUT="$(echo "$out" | grep -E 'VIOLATION|->' | head -2 | cut -c1-300)" python3 - <<'PY'
 import json,os
@@ -21,7 +25,6 @@ m=json.load(open('/tmp/wt/%s/_seed/meta.json'%e['ID']))
 m.update({"id":e['ID'],"breaks":e['PROP'],
  "confirmed":{"suite_with_change":e['SUITE'],"demo_with_change":"exit %s"%e['WITH'],"demo_without_change":"exit %s"%e['WITHOUT']},
  "detected_by":{"./check %s %s"%(e['PROP'],e['TIER']):("exit %s: "%e['RC'])+e['OUT']},
- "what_i_ran":"suite + demo in the scratch worktree (with / without the change); git -C /repo apply patch.diff; ./check %s %s; git -C /repo checkout -- ."%(e['PROP'],e['TIER'])})
+ "what_i_ran":"demo on a clean checkout and with patch.diff applied, pytest with the patch (scratch worktree); git -C /repo apply patch.diff; ./check %s %s; git -C /repo checkout -- ."%(e['PROP'],e['TIER'])})
 json.dump(m,open('/verif/seeded/%s/meta.json'%e['ID'],'w'),indent=1)
 PY
-git -C /repo worktree remove --force $wt
